@@ -38,3 +38,13 @@ Print Assumptions C02_invariant_partial.
 Theorem C02_init `{Sig} : forall n ks, inv3 {| nd := n + 1; mem := blank; aks := ks |}.
 Proof. exact inv3_empty. Qed.
 Print Assumptions C02_init.
+
+(** ... and by the 2-links / 2-unlinks of in-use darts (success or refusal): the mirror clause only mentions
+    beta1 and beta3. *)
+From HC Require Import Map3.Wf3Links.
+Theorem C02_link2_keeps_invariant `{Sig} : forall fa st c, inv3 st ->
+  match c with L2 _ _ | U2 _ => True | _ => False end ->
+  pre_call3b (nd st) (mem st) c = true ->
+  inv3 (snd (step3 fa st (Force3 c))).
+Proof. exact inv3_step_link2. Qed.
+Print Assumptions C02_link2_keeps_invariant.
